@@ -186,21 +186,87 @@ def _sx_not_in(a, c):
     return P.sym_not(_sx_in(a, c))
 
 
+class SymRope:
+    """text made of literal pieces and symbolic values (result of an f-string over proxies).  Two ropes are equal
+    iff their layouts agree and the symbolic pieces are equal (decimal renderings of integers contain no
+    separator characters, so the concatenation is injective for the key formats used in the repository)."""
+    __sx_symkey__ = True
+
+    def __init__(self, parts):
+        self.parts = parts
+
+    def _layout(self):
+        return tuple(p if isinstance(p, str) else None for p in self.parts)
+
+    def __eq__(self, o):
+        import z3
+        if isinstance(o, SymRope):
+            if self._layout() != o._layout():
+                return False
+            cs = []
+            for a, b in zip(self.parts, o.parts):
+                if isinstance(a, str):
+                    continue
+                if isinstance(a, P.SymInt) and isinstance(b, P.SymInt):
+                    cs.append(P.truth(a == b))
+                elif a is b:
+                    continue
+                else:
+                    raise Unsupported("rope comparison of %r" % type(a).__name__)
+            return P.SymBool(z3.And(*cs)) if cs else True
+        if isinstance(o, str):
+            raise Unsupported("comparison of symbolic text with a concrete string")
+        return False
+
+    def __ne__(self, o):
+        return P.sym_not(self.__eq__(o))
+
+    def __hash__(self):
+        return P.SymInt.WEAK_HASH
+
+    def __add__(self, o):
+        if isinstance(o, str):
+            return SymRope(self.parts + [o])
+        if isinstance(o, SymRope):
+            return SymRope(self.parts + o.parts)
+        return NotImplemented
+
+    def __radd__(self, o):
+        if isinstance(o, str):
+            return SymRope([o] + self.parts)
+        return NotImplemented
+
+    def __str__(self):
+        return "".join(p if isinstance(p, str) else "<symbolic>" for p in self.parts)
+
+    __repr__ = __str__
+
+
 def _sx_fstr(parts):
     out = []
     symbolic = False
+    rope = False
     for p in parts:
         if isinstance(p, str):
             out.append(p)
             continue
         v, conv, spec = p
+        if isinstance(v, P.SymInt) and not spec:
+            v2 = v.simp()
+            if isinstance(v2, int):
+                out.append(str(v2))
+            else:
+                out.append(v2)
+                rope = True
+            continue
         if hasattr(v, "__sx_format__"):
             out.append(v.__sx_format__(conv, spec))
             symbolic = symbolic or not isinstance(out[-1], str)
             continue
         if isinstance(v, P.SYM_TYPES):
-            # not rendered: a placeholder that can never be parsed back
-            raise Unsupported("f-string of symbolic %s" % type(v).__name__)
+            out.append(v)      # opaque piece (exception messages and the like)
+            rope = True
+            continue
         if conv == ord("r"):
             v = repr(v)
         elif conv == ord("s"):
@@ -208,6 +274,16 @@ def _sx_fstr(parts):
         elif conv == ord("a"):
             v = ascii(v)
         out.append(format(v, spec) if spec else format(v))
+    if rope:
+        if symbolic:
+            raise Unsupported("f-string mixing symbolic text and symbolic numbers")
+        merged = []
+        for x in out:
+            if isinstance(x, str) and merged and isinstance(merged[-1], str):
+                merged[-1] += x
+            else:
+                merged.append(x)
+        return SymRope(merged)
     if not symbolic:
         return "".join(out)
     r = out[0]
@@ -244,8 +320,8 @@ def load_module(modname, relpath, package="nmea2000", pre=None, drop_logging=Tru
     return mod
 
 
-REBIND = dict(int=P.sx_int, bytes=P.sx_bytes, isinstance=P.sx_isinstance, round=P.sx_round, sum=P.sx_sum,
-              min=P.sx_min)
+REBIND = dict(int=P.sx_int, bytes=P.sx_bytes, isinstance=lambda o, c: P.sx_isinstance(o, c),
+              round=lambda *a: P.sx_round(*a), sum=lambda *a: P.sx_sum(*a), min=lambda *a: P.sx_min(*a))
 
 
 def rebind(mod, names=None):
